@@ -528,41 +528,64 @@ def lostWakeSigs (st : CaseSt) (h : HistoryF) (cfgF : Cfg) : List String :=
 /-! ### shared handles: `close` is two steps
 
 `close(&self)` of every handle type is: CAS the handle's own `closed` flag, THEN apply the effect (count decrement,
-peer flag, wake-ups). When two threads share one handle (`share h`, harness README), a second `close` that overlaps
-the first finds the flag set and reports `CloseError` although the first close's effect has not happened yet: what the
-second thread observes next (`try_recv` → Empty, `try_send` → ok) still shows the open channel. The model's `close` is
-one atomic step, so that `CloseError` would pin the first close's effect too early. A `close h ⇒ err:close` that
-OVERLAPS another thread's `close h` (called before it returned, not yet returned when it was called) is therefore
-left out of the history handed to the search: it has no effect on the model state, and the only thing lost is the
-ordering constraint the code does not provide. A `CloseError` that does not overlap another close — and every `ok` —
-is kept, so a second SUCCESSFUL close of one handle is still refuted (`startClose`: `closeErr`). Handles owned by one
-thread never produce overlapping closes, so nothing changes for them. -/
+peer flag, wake-ups). When two threads share one handle (`share h`, harness README), an operation of the second
+thread on that handle that overlaps the first thread's `close` finds the flag set and gives the closed-handle answer
+(`close` → CloseError, send forms → Closed, receive forms → Disconnected) although the close's effect has not happened
+yet: what the second thread observes next through OTHER handles (`try_recv` → Empty, `try_send` → ok) still shows the
+open channel. The model's `close` is one atomic step, so such an answer would pin the close's effect too early.
+An operation on handle `h` that (1) OVERLAPS another thread's `close h` (that close was called before the operation
+returned and had not returned when the operation was called), (2) returned the closed-handle answer and (3) moved no
+value (nothing received; the offered values handed back — the blocking `send`, whose error drops the value, is not
+relaxed) is therefore left out of the history handed to the search: it has no effect on the model state, and the only
+thing lost is an ordering constraint the code does not provide. Closed-handle answers that do not overlap a close of
+that handle — and every `ok` — are kept, so a second SUCCESSFUL close of one handle is still refuted (`startClose`:
+`closeErr`). Handles owned by one thread never overlap their own close, so nothing changes for them. -/
 def closeOf : Ev → Option (Nat × HName)
   | .call t (.close h) => some (t, h)
   | _ => none
 
-/-- positions (in `h`) of the call / return events of `close … ⇒ err:close` operations that overlap a `close` of the
-same handle by another thread -/
-def overlappedCloseErr (h : History) : List Nat :=
+/-- handle and "is this result the closed-handle answer without any value moved" of an operation -/
+def closedAnswer (op : Op) (r : Res) : Option HName :=
+  match op with
+  | .close h => if r.tag == .closeErr then some h else none
+  | .snd f h _ => if r.tag == .closed && f != .send && r.cnt == 0 then some h else none
+  | .rcv _ h _ => if r.tag == .disconnected && r.vals.isEmpty then some h else none
+  | _ => none
+
+/-- positions (in `h`) of the call / return events of the operations described above -/
+def overlappedClosedAnswers (h : History) : List Nat :=
   let n := h.length
   let retOf (t i : Nat) : Nat :=
     (((h.zipIdx.drop (i + 1)).find? fun x => match x.1 with | .ret u _ => u == t | _ => false).map (·.2)).getD n
-  -- per `close` call: (index, tid, handle, index of its return or n, is `err:close`)
-  let closes : List (Nat × Nat × HName × Nat × Bool) := h.zipIdx.filterMap fun x =>
-    match closeOf x.1 with
-    | some (t, hn) =>
-      let r := retOf t x.2
-      let isErr := match h[r]? with
-        | some (.ret _ res) => res.tag == .closeErr
-        | _ => false
-      some (x.2, t, hn, r, isErr)
-    | none => none
-  closes.flatMap fun (i, t, hn, r, isErr) =>
-    if isErr && closes.any (fun (j, u, hm, rj, _) => u != t && hm == hn && j < r && rj > i) then [i, r] else []
+  -- every `close` call: (index, tid, handle, index of its return or n)
+  let closes : List (Nat × Nat × HName × Nat) := h.zipIdx.filterMap fun x =>
+    (closeOf x.1).map fun (t, hn) => (x.2, t, hn, retOf t x.2)
+  if closes.length < 1 then [] else
+  h.zipIdx.flatMap fun x =>
+    match x.1 with
+    | .call t op =>
+      let i := x.2
+      let r := retOf t i
+      match h[r]? with
+      | some (.ret _ res) =>
+        match closedAnswer op res with
+        | some hn => if closes.any (fun (j, u, hm, rj) => u != t && hm == hn && j < r && rj > i) then [i, r] else []
+        | none => []
+      | _ => []
+    | _ => []
 
 def relaxSharedClose (h : History) : History :=
-  let drop := overlappedCloseErr h
+  let drop := overlappedClosedAnswers h
   if drop.isEmpty then h else (h.zipIdx.filter (fun x => !drop.contains x.2)).map (·.1)
+
+/-- the values offered by the send operations left out by `relaxSharedClose` (all handed back to the caller, who
+drops each exactly once: their `D` entries are checked against 1 and not against the model) -/
+def relaxedVals (h : History) : List Val :=
+  let drop := overlappedClosedAnswers h
+  (h.zipIdx.filter (fun x => drop.contains x.2)).flatMap fun x =>
+    match x.1 with
+    | .call _ op => op.vals
+    | _ => []
 
 def finish0 (liveness : Bool) (st : CaseSt) : Except String (List String) :=
   match st.skip with
@@ -591,7 +614,9 @@ def finish0 (liveness : Bool) (st : CaseSt) : Except String (List String) :=
           | .error m => .error m
     else if st.seqMode then .ok ["seq-case"]
     else
-      let h := relaxSharedClose st.hist.reverse
+      let h0 := st.hist.reverse
+      let h := relaxSharedClose h0
+      let rv := relaxedVals h0
       let quiesce := liveness && st.status.startsWith "deadlock"
       match linearize st.fl linCfg h quiesce with
       | none =>
@@ -606,7 +631,10 @@ def finish0 (liveness : Bool) (st : CaseSt) : Except String (List String) :=
         match st.drops with
         | none => .ok ["lin-ok", if quiesce then "lin-quiescent" else "lin-incomplete"]
         | some d =>
-          match compareDrops s d with
+          match d.find? (fun x => rv.contains x.1 && x.2 != 1) with
+          | some (v, c) => .error s!"drop-count value={v} impl={c} model=1 (handed back by a send on a handle that was being closed)"
+          | none =>
+          match compareDrops s (d.filter (fun x => !rv.contains x.1)) with
           | .ok _ => .ok ["lin-ok", "drops-checked"]
           | .error m => .error m
 
